@@ -304,8 +304,9 @@ def body(ctx):
     rblocks = []
     rk = []
     k = 0
-    for r in ("int32_t", "double", "float", "int64_t", "uint16_t"):
-        rblocks.append((k, "\n".join([
+    for r in ("int32_t", "double", "float", "int64_t", "uint16_t", "int16_t", "int8_t", "uint8_t"):
+        narrow8 = r in ("int8_t", "uint8_t")  # feet -> inches is not policy-safe in an 8-bit rep: same-unit forms only
+        rblocks.append((k, "\n".join([l for l in [
             'extern "C" %s a_min_%d(%s x, %s y) { return min(au::meters(x), au::meters(y)).in(au::meters); }' % (r, k, r, r),
             'extern "C" %s r_min_%d(%s x, %s y) { return std::min(x, y); }' % (r, k, r, r),
             'extern "C" %s a_max_%d(%s x, %s y) { return max(au::meters(x), au::meters(y)).in(au::meters); }' % (r, k, r, r),
@@ -314,7 +315,7 @@ def body(ctx):
             'extern "C" auto r_mmin_%d(%s x, %s y) { return std::min<%s>(x * %s{12}, y); }' % (k, r, r, r, r),
             'extern "C" auto a_mmax_%d(%s x, %s y) { return max(au::feet(x), au::inches(y)).in(au::inches); }' % (k, r, r),
             'extern "C" auto r_mmax_%d(%s x, %s y) { return std::max<%s>(x * %s{12}, y); }' % (k, r, r, r, r),
-        ] + ([
+        ] if not (narrow8 and "_mm" in l)] + ([
             'extern "C" auto a_abs_%d(%s x) { return au::abs(au::meters(x)).in(au::meters); }' % (k, r),
             'extern "C" auto r_abs_%d(%s x) { return std::abs(x); }' % (k, r),
         ] if not r.startswith("u") else []) + ([
